@@ -24,9 +24,31 @@ def build(src):
     u.ctor_cleanup["opt"] = "nitro_uptr_reset(&self->data_, 0)"
 
     def other_rules(n):
-        # `other` is a const optional&: operator bool and operator* are calls of this unit's functions (D6)
-        return [Rule("D6.opt-bool." + n, r"\bif\s*\(\s*%s\s*\)" % n, "if (opt_bool(%s))" % n),
-                Rule("D6.opt-deref." + n, r"\*%s\b" % n, "(*opt_deref(%s))" % n)]
+        # `other` is a const optional&: operator bool and operator* are calls of this unit's functions (D6).  Every use of the bare
+        # name that is not a dereference, an address-of or a member access is a contextual conversion to bool.
+        class BoolContext:
+            name = "D6.opt-bool." + n
+
+            def apply(self, text):
+                cnt = 0
+
+                def rep(m):
+                    nonlocal cnt
+                    before = text[:m.start()].rstrip()
+                    after = text[m.end():].lstrip()
+                    ok_before = before.endswith(("(", "!", "&&", "||", "?", ":", "return", "=")) and not before.endswith(("opt_bool(", "opt_deref("))
+                    ok_after = after.startswith((")", "&&", "||", "?", ":", ";"))
+                    if before.endswith(("opt_bool(", "opt_deref(")):
+                        return m.group(0)
+                    if not (ok_before and ok_after):
+                        raise ExtractionError("optional: the reference parameter `%s` is used in a way no rule covers: ...%s" % (n, text[max(0, m.start() - 40):m.end() + 20]))
+                    cnt += 1
+                    return "opt_bool(%s)" % n
+                out = re.sub(r"(?<![\w.>&*])%s\b(?!\s*(?:->|\.|\())" % n, rep, text)
+                return out, cnt
+        return [Rule("D6.opt-bool." + n, r"static_cast<bool>\(\s*%s\s*\)" % n, "opt_bool(%s)" % n),
+                Rule("D6.opt-deref." + n, r"\*%s\b" % n, "(*opt_deref(%s))" % n),
+                BoolContext()]
     common = [
         CallRule("D3.std-move", r"std::move\(", lambda m, a: "(%s)" % a[0]),
         CallRule("D7.make_unique", r"std::make_unique<T>\(", lambda m, a: "nitro_make_unique_T(&(%s))" % a[0]),
